@@ -425,6 +425,12 @@ class Parser:
                 self.raise_raw_syntax_error(message, last_token.start, last_token.end)
             self.raise_raw_syntax_error("invalid syntax", last_token.start, last_token.end)
 
+        end = self._tokenizer._tokens[-1] if self._tokenizer._tokens else None
+        if rule == "eval" and isinstance(res, ast.AST) and end is not None and end.type == Token.ENDMARKER and end.line:
+            # the text of an expression gets no implicit final line end (CPython's eval input): a last line that holds only
+            # indentation is an indented line, not a blank one as it is at the end of a module
+            where = (end.start[0] - 1, len(end.line))
+            raise IndentationError("unexpected indent", (self.filename, where[0], where[1] + 1, end.line, where[0], where[1] + 1))
         if isinstance(res, ast.AST) and any(not t.string.isascii() for t in self._tokenizer._tokens if t.type == Token.NAME):
             self._normalize_identifiers(res)  # (refuses names that are no identifiers: before the version check, which is
             # only for programs that are otherwise accepted)
